@@ -224,11 +224,13 @@ theorem C20_bank_order (cs cs' : List ClassDef) (hp : cs.Perm cs') (hcf : collis
   rw [h1, h2]
   exact regs_perm hp hcf r
 
-/-- Colliding references are rejected at registration: two concrete classes of different identity sharing a
+/-- Colliding references are rejected at registration: two concrete classes that `Meta.__eq__` tells apart (another
+module or another qualified name — two nested classes with the same bare name are different classes) and that share a
 reference make the registration fail with the collision error — in whatever order the list is. -/
 theorem C20_collision_rejected (cs : List ClassDef) (c d : ClassDef) (hc : c ∈ cs) (hd : d ∈ cs)
     (hca : c.abstract = false) (hda : d.abstract = false) (r : Ref) (hrc : r ∈ refs c) (hrd : r ∈ refs d)
-    (hne : c.id ≠ d.id) : addAll Bank.empty cs = .error .collision := by
+    (hmeta : metaEq c.id d.id = false) : addAll Bank.empty cs = .error .collision := by
+  have hne : c.id ≠ d.id := fun h => by rw [(metaEq_iff c.id d.id).2 h] at hmeta; cases hmeta
   cases h : addAll Bank.empty cs with
   | error e => rw [addAll_error_collision cs _ e h]
   | ok b =>
@@ -237,6 +239,82 @@ theorem C20_collision_rejected (cs : List ClassDef) (c d : ClassDef) (hc : c ∈
     have h2 := hb d (by simpa using hd) hda r hrd
     rw [h1] at h2
     exact absurd (Option.some.inj h2) hne
+
+/-- What `Meta.__eq__` takes for the same class (same module, same qualname: a factory function called twice, a class
+statement executed again) is no collision: the statement re-registers the provider and every binding stays as it was. -/
+theorem C20_same_class_reregisters (b b1 : Bank) (c : ClassDef) (h : b.add c = .ok b1) :
+    ∃ b2, b1.add c = .ok b2 ∧ ∀ r, lookupRef r b2.provider = lookupRef r b1.provider := add_again h
+
+/-- `Meta.__eq__` / `Meta.__hash__` are consistent: it is an equivalence that implies equal hashes (the `BANK` dictionary
+keyed by interface classes finds the bank of a re-created interface class). -/
+theorem C20_meta_eq_hash (hashOf : Nat → Nat) (a b c : ClassId) :
+    metaEq a a = true ∧ (metaEq a b = true → metaEq b a = true) ∧
+      (metaEq a b = true → metaEq b c = true → metaEq a c = true) ∧
+      (metaEq a b = true → metaHash hashOf a = metaHash hashOf b) := by
+  refine ⟨(metaEq_iff a a).2 rfl, ?_, ?_, metaHash_of_eq hashOf a b⟩
+  · intro h; exact (metaEq_iff b a).2 ((metaEq_iff a b).1 h).symm
+  · intro h1 h2; exact (metaEq_iff a c).2 (((metaEq_iff a b).1 h1).trans ((metaEq_iff b c).1 h2))
+
+/-- `Meta.__eq__` comparing the bare class name (`__name__`) instead of the qualified name: `bare` maps a qualname to its
+last component -/
+def metaEqName (bare : Nat → Nat) (a b : ClassId) : Bool := a.mod == b.mod && bare a.qn == bare b.qn
+
+/-- `Bank.add` with that equality -/
+def addByName (bare : Nat → Nat) (b : Bank) (c : ClassDef) : Except Err Bank :=
+  if (refs c).any (fun r => match lookupRef r b.provider with
+      | some d => !metaEqName bare d c.id
+      | none => false) then .error .collision
+  else
+    let paths := addPaths b.paths (c.paths.map (fun m => ⟨m, true⟩))
+    if c.abstract then .ok ⟨b.provider, paths⟩ else .ok ⟨register b.provider c, paths⟩
+
+def C20_collision_by_name_full : Prop :=
+  ∀ (bare : Nat → Nat) (c d : ClassDef) (b1 : Bank), c.abstract = false → d.abstract = false → c.id ≠ d.id →
+    (∃ r, r ∈ refs c ∧ r ∈ refs d) → addByName bare Bank.empty c = .ok b1 →
+    (match addByName bare b1 d with
+      | .error .collision => true
+      | _ => false) = true
+
+/-- Why the qualified name has to be compared: by the bare name two different classes of one module (`Production.Sink`
+= 11, `Development.Sink` = 21, both `Sink` = 1) claiming the same alias are taken for one class — the second is not
+rejected and takes the alias over. -/
+theorem C20_collision_by_name_counterexample : ¬ C20_collision_by_name_full := by
+  intro h
+  have := h (fun n => n % 10) ⟨⟨⟨1, some 3⟩, 11⟩, some 5, false, false, [⟨⟨0, none⟩, 0⟩], []⟩
+    ⟨⟨⟨1, some 3⟩, 21⟩, some 5, false, false, [⟨⟨0, none⟩, 0⟩], []⟩ _ rfl rfl (by decide) ⟨.alias 5, by decide, by decide⟩ rfl
+  revert this
+  decide
+
+/-- …while `Bank.add` as it is rejects exactly that pair (non-vacuity of `C20_collision_rejected` for nested classes
+with equal bare names), and accepts the same class statement executed twice -/
+example :
+    let c : ClassDef := ⟨⟨⟨1, some 3⟩, 11⟩, some 5, false, false, [⟨⟨0, none⟩, 0⟩], []⟩
+    let d : ClassDef := ⟨⟨⟨1, some 3⟩, 21⟩, some 5, false, false, [⟨⟨0, none⟩, 0⟩], []⟩
+    metaEq c.id d.id = false ∧
+      (match addAll Bank.empty [c, d] with
+        | .error .collision => true
+        | _ => false) = true ∧
+      (match addAll Bank.empty [c, c] with
+        | .ok b => lookupRef (.alias 5) b.provider == some c.id
+        | _ => false) = true := by decide
+
+/-- `importlib.reload`: whatever it re-executes and however it ends, it removes nothing (bindings, search paths,
+`sys.modules` entries) and binds nothing but concrete classes of the world carrying the reference.  (Whether a
+re-executed class statement counts as the same class depends on the identity of its `__qualname__` string — `reloadClasses`:
+interned names re-register, dotted qualnames raise the collision error — which the correspondence check compares.) -/
+theorem C20_reload_sound (w : World) (interned : List Nat) (st : St) (m : Mod) (res : St × Option Err)
+    (hs : StSound (InWorld w) st) (h : reloadMod w interned st m = some res) :
+    StLe st res.1 ∧ StSound (InWorld w) res.1 := by
+  unfold reloadMod at h
+  cases hf : findMod m w with
+  | none => simp [hf] at h
+  | some d =>
+    simp only [hf] at h
+    split at h
+    · cases h
+      exact ⟨reloadClasses_le interned d.classes st,
+        reloadClasses_sound interned d.classes (fun c hc => ⟨m, d, findMod_mem hf, hc⟩) st hs⟩
+    · cases h
 
 /-- Abstract providers are never bound: every binding comes from a concrete class of the list carrying it. -/
 theorem C20_abstract_never_registered (cs : List ClassDef) (b : Bank) (h : addAll Bank.empty cs = .ok b)
